@@ -93,3 +93,14 @@ CLAIMED['C10'] = dict(
          "above 5 bits are outside the claim (bit loops fork per bit).",
     technique="symbolic execution of the real Python (symbolic interval bounds / constants) + z3 membership query per path",
     design_ref="DESIGN.md §3 C10")
+
+CLAIMED['C25'] = dict(
+    level='other',
+    text="bin_stream_str getbytes/getbits/get_uN and the atomic-mode cache run on a buffer whose every byte is a solver "
+         "variable, with symbolic start/length/base address covering before/inside/after the buffer; per path z3 proves "
+         "result == extract(buffer) (MSB-first bits, both byte orders), IOError exactly outside, cached == uncached also "
+         "across atomic sections with a changed source. Buffers of 0..3 (quick) / 0..9 (thorough) bytes.",
+    note="Trusted: z3, vf/symx.py; stubs: SymBytes buffer, ord and upck* pass-throughs (struct is C). File/ELF/PE/VM streams "
+         "are outside the claim.",
+    technique="symbolic execution of the real Python (symbolic buffer bytes and offsets) + z3 per-path queries",
+    design_ref="DESIGN.md §3 C25")
